@@ -111,6 +111,8 @@ type PlanRun struct {
 	startErr     string
 	msgSeed      uint64
 	emptyMsgs    int  // plugin errors delivered with an empty message
+	errWithResp  int  // plugin errors delivered together with a well-typed response
+	lateAnswers  int  // overrun invocations that ignored cancellation and answered ok after the deadline
 	startOK      int  // Start calls that returned nil
 	raced        int  // racing Start calls made (0 = one ordinary call)
 	ctxCancelled bool // Start got a context that the harness cancelled afterwards
@@ -198,7 +200,12 @@ func Behave(ctx context.Context, p *hplug.Plugin, req any) (any, *plugins.Error)
 		return p.OKResp(req), nil
 	}
 	a.inv.Lock()
-	defer a.inv.Unlock()
+	locked := true
+	defer func() {
+		if locked {
+			a.inv.Unlock()
+		}
+	}()
 
 	st := Step{O: OOk}
 	if a.run < len(a.script) && a.att < len(a.script[a.run]) {
@@ -224,6 +231,12 @@ func Behave(ctx context.Context, p *hplug.Plugin, req any) (any, *plugins.Error)
 				o = OOverrun
 			}
 			run.unpark(st.Gate)
+		}
+	}
+	if st.SlowMs > 0 && o != OOverrun { // a slow invocation: works for a while (honouring its context), then answers
+		select {
+		case <-ctx.Done():
+		case <-time.After(time.Duration(st.SlowMs) * time.Millisecond):
 		}
 	}
 	ctxErr := ""
@@ -274,6 +287,13 @@ func Behave(ctx context.Context, p *hplug.Plugin, req any) (any, *plugins.Error)
 			run.emptyMsgs++
 			logMu.Unlock()
 		}
+		// ... and whatever comes with it: with probability 0.3 a well-typed RESPONSE is returned together with the error
+		if core.NewRand(run.msgSeed).Fork(h).Fork(uint64(a.starts)).Fork(0x4e5).Chance(0.3) {
+			resp = p.OKResp(req)
+			logMu.Lock()
+			run.errWithResp++
+			logMu.Unlock()
+		}
 	}
 	switch o {
 	case OWrongType:
@@ -287,6 +307,18 @@ func Behave(ctx context.Context, p *hplug.Plugin, req any) (any, *plugins.Error)
 		a.att = 0
 	} else {
 		a.att++
+	}
+	if o == OOverrun && st.LateMs > 0 {
+		// A plugin that IGNORES cancellation: its End was logged when its deadline fired (the engine stopped listening
+		// then), but it goes on working and answers ok LateMs later - into a channel nobody reads any more on correct
+		// code. The next invocation of the action is held only until that End was logged, not until this return.
+		logMu.Lock()
+		run.lateAnswers++
+		logMu.Unlock()
+		locked = false
+		a.inv.Unlock()
+		time.Sleep(time.Duration(st.LateMs) * time.Millisecond)
+		return p.OKResp(req), nil
 	}
 	return resp, perr
 }
